@@ -227,6 +227,7 @@ func replay(r *mon.Run, work string, idx int, rng *mrand.Rand, f *flow, s script
 				}
 			}()
 			wrng := mrand.New(mrand.NewPCG(rng.Uint64(), 13))
+			scratch := make([]byte, 0, 70000)
 			for p := 0; p < len(backend); {
 				q := len(backend)
 				switch {
@@ -235,7 +236,12 @@ func replay(r *mon.Run, work string, idx int, rng *mrand.Rand, f *flow, s script
 				case s.writeSplit < 0:
 					q = min(q, p+1+wrng.IntN(3000))
 				}
-				n, err := conn.Write(backend[p:q])
+				// the caller owns its buffer: like io.Copy, reuse one scratch buffer and overwrite it after every Write
+				scratch = append(scratch[:0], backend[p:q]...)
+				n, err := conn.Write(scratch)
+				for k := range scratch {
+					scratch[k] = 0xEE
+				}
 				if err == nil && n != q-p {
 					r.Violate(work, idx, sig("write-short-without-error"), fmt.Sprintf("Write returned n=%d for %d bytes with a nil error", n, q-p), c)
 				}
